@@ -38,7 +38,9 @@ Section SbSafety.
 
   (* what a sandboxed step may do to the state *)
   Definition sb_le (s s' : sb_st) : Prop :=
-    sbs_shared s' = sbs_shared s /\ sbs_extern s' = sbs_extern s /\
+    sbs_shared s' = sbs_shared s /\
+    (* the external component grows only by the logged effects of constructing a type of [sbf_ctor_global] *)
+    (exists w, sbs_extern s' = w ++ sbs_extern s /\ Forall (fun x => sb_mem x (sbf_ctor_global F) = true) w) /\
     (exists c, sbs_calls s' = c ++ sbs_calls s /\ Forall (fun x => snd x = true) c) /\
     (exists r, sbs_reads s' = r ++ sbs_reads s /\ Forall (sb_rd_ok s) r).
 
@@ -50,8 +52,9 @@ Section SbSafety.
 
   Lemma sb_le_trans s1 s2 s3 : sb_le s1 s2 -> sb_le s2 s3 -> sb_le s1 s3.
   Proof.
-    intros (A1 & B1 & (c1 & C1 & D1) & (r1 & R1 & Q1)) (A2 & B2 & (c2 & C2 & D2) & (r2 & R2 & Q2)).
-    split; [congruence|]. split; [congruence|]. split.
+    intros (A1 & (w1 & B1 & E1) & (c1 & C1 & D1) & (r1 & R1 & Q1)) (A2 & (w2 & B2 & E2) & (c2 & C2 & D2) & (r2 & R2 & Q2)).
+    split; [congruence|]. split; [|split].
+    - exists (w2 ++ w1). rewrite B2, B1, app_assoc. split; [reflexivity|]. apply Forall_app; split; assumption.
     - exists (c2 ++ c1). rewrite C2, C1, app_assoc. split; [reflexivity|]. apply Forall_app; split; assumption.
     - exists (r2 ++ r1). rewrite R2, R1, app_assoc. split; [reflexivity|]. apply Forall_app; split; [|assumption].
       eapply Forall_impl; [|exact Q2]. intros a. apply sb_rd_ok_shared. exact A1.
@@ -92,6 +95,13 @@ Section SbSafety.
   Proof.
     intros Hk s. unfold sb_bind, sb_alloc. eapply sb_le_trans; [|apply Hk].
     repeat split; simpl; try (exists []; split; [reflexivity|constructor]).
+  Qed.
+
+  (* constructing a type whose constructor / destructor writes process-global state: the one extern write a sandboxed step may do *)
+  Lemma sb_safe_ctor_effect t : sb_mem t (sbf_ctor_global F) = true -> sb_safe (sb_extern_write t).
+  Proof.
+    intros Ht s. repeat split; simpl; try (exists []; split; [reflexivity|constructor]).
+    exists [t]. split; [reflexivity|]. constructor; [exact Ht|constructor].
   Qed.
 
   Lemma sb_safe_fields v : sb_safe (sb_fields v).
@@ -302,7 +312,10 @@ Section SbSafety.
           * rewrite Hcg. simpl. destruct (sb_fun_safe F f) eqn:Hs; simpl; [|apply sb_safe_fail].
             apply sb_safe_bind; [apply sb_safe_evals; exact G|intros vs]. apply Hinv; assumption.
           * apply sb_safe_bind; [apply sb_safe_evals; exact G|intros vs].
-            match goal with |- sb_safe (if ?c then _ else _) => destruct c end; [apply sb_safe_ret|apply sb_safe_alloc].
+            match goal with |- sb_safe (if ?c then _ else _) => destruct c end; [apply sb_safe_ret|].
+            apply sb_safe_bind; [match goal with |- sb_safe (if ?c then _ else _) => destruct c end; [apply sb_safe_fail|apply sb_safe_ret]|intros _].
+            apply sb_safe_bind; [|intros; apply sb_safe_alloc].
+            destruct (sb_mem t (sbf_ctor_global F)) eqn:Hct; [apply sb_safe_ctor_effect; exact Hct|apply sb_safe_ret].
       - apply sb_safe_bind; [apply sb_safe_evals; exact G|intros; apply sb_safe_alloc].
       - (* Dict *)
         destruct inline; [apply sb_safe_seq; exact G|].
@@ -399,12 +412,32 @@ Section SbSafety.
 End SbSafety.
 
 (* ------------------------------------------------------------------ the three theorems *)
-Lemma sb_no_write F fuel fr e s :
+(* without any hypothesis on the constructible types: the shared heap is untouched, and the external component grows only by
+   the logged effects of constructing a type whose constructor / destructor writes process-global state *)
+Lemma sb_writes_only_ctor_effects F fuel fr e s :
   sb_premises F = true -> sbfr_sandboxed fr = true -> sbfr_top fr = true -> sb_frame_ok F fr = true ->
-  sb_protected (snd (sb_eval F fuel fr e s)) = sb_protected s.
+  sbs_shared (snd (sb_eval F fuel fr e s)) = sbs_shared s /\
+  exists w, sbs_extern (snd (sb_eval F fuel fr e s)) = w ++ sbs_extern s /\
+            Forall (fun x => sb_mem x (sbf_ctor_global F) = true) w.
 Proof.
   intros Hp Hs Ht Hok. pose proof (sb_run_safe F Hp fuel (SbRqEval fr e) (conj Hs (conj Ht Hok)) s) as (A & B & _).
-  unfold sb_protected, sb_eval. rewrite A, B. reflexivity.
+  split; [exact A|exact B].
+Qed.
+
+Lemma sb_no_ctor_effects F (w : list sb_name) :
+  sb_no_global_ctor F = true -> Forall (fun x => sb_mem x (sbf_ctor_global F) = true) w -> w = [].
+Proof.
+  unfold sb_no_global_ctor. destruct (sbf_ctor_global F); [|discriminate]. intros _ H.
+  destruct w as [|x w]; [reflexivity|]. inv H. discriminate.
+Qed.
+
+Lemma sb_no_write F fuel fr e s :
+  sb_premises F = true -> sb_no_global_ctor F = true ->
+  sbfr_sandboxed fr = true -> sbfr_top fr = true -> sb_frame_ok F fr = true ->
+  sb_protected (snd (sb_eval F fuel fr e s)) = sb_protected s.
+Proof.
+  intros Hp Hc Hs Ht Hok. destruct (sb_writes_only_ctor_effects F fuel fr e s Hp Hs Ht Hok) as (A & w & B & W).
+  rewrite (sb_no_ctor_effects F w Hc W) in B. unfold sb_protected. rewrite A, B. reflexivity.
 Qed.
 
 Lemma sb_calls_safe F fuel fr e s :
@@ -480,12 +513,13 @@ Qed.
    below a sandboxed stack top it leaves every cell reachable from receiver and arguments, and the whole protected
    component, unchanged *)
 Lemma sb_safe_native_preserves F fuel fr nm self args s :
-  sb_premises F = true -> sbfr_top fr = true -> sb_fun_safe F (SbNative nm) = true ->
+  sb_premises F = true -> sb_no_global_ctor F = true -> sbfr_top fr = true -> sb_fun_safe F (SbNative nm) = true ->
   let s' := snd (sb_run F fuel (SbRqInvoke fr (SbNative nm) self args) s) in
   (forall i, In i (sb_reach s (self :: args)) -> nth i (sbs_shared s') [] = nth i (sbs_shared s) []) /\
   sb_protected s' = sb_protected s.
 Proof.
-  intros Hp Ht Hs. pose proof (sb_run_safe F Hp fuel (SbRqInvoke fr (SbNative nm) self args) (conj Ht Hs) s) as (A & B & _).
+  intros Hp Hc Ht Hs. pose proof (sb_run_safe F Hp fuel (SbRqInvoke fr (SbNative nm) self args) (conj Ht Hs) s) as (A & (w & B & W) & _).
+  rewrite (sb_no_ctor_effects F w Hc W) in B.
   cbv zeta. split; [intros i _; rewrite A; reflexivity|]. unfold sb_protected. rewrite A, B. reflexivity.
 Qed.
 
